@@ -68,6 +68,15 @@ def tasks(tier):
                    strat_menu=[1])
         out.append({"family": "budget-shared", "cfg": cfg, "entry": pat[0], "bound": 0,
                     "entries": list(pat), "ncalls": 2, "ticks": [0], "weight": 4})
+    # failures that carry a Retry-After hint (Classification objects) with a strategy answering at
+    # least the hint: such retries are charged to the budget like any other
+    for mx, st, pat in itertools.product([1, 2], [{"default": "ctx", "per": {}}, {"default": "libnested", "per": {}}],
+                                         [("Retry.execute", "AsyncRetry.call"), ("AsyncPolicy.execute", "Policy.call"),
+                                          ("RetryPolicy.call", "Retry.call")]):
+        cfg = dict(M=3, alphabet=["x:R+ra", "ok", "r:R+ra", "x:T"], ra_ticks=1, max_unknown=None,
+                   budget={"max": mx, "window": 8}, strat=st, strat_menu=[1, 2])
+        out.append({"family": "budget-shared", "cfg": cfg, "entry": pat[0], "bound": 1,
+                    "entries": list(pat), "ncalls": 2, "ticks": [0, 1], "weight": 6})
     # an abort request arrives while a granted retry is running: the token stays spent
     for mx, pat in itertools.product([1, 2], [("Retry.execute", "AsyncRetry.call"),
                                               ("AsyncRetry.execute", "Policy.call")]):
